@@ -10,7 +10,7 @@ for d in /verif/seeded/*/; do
   if ! git apply "$d/patch.diff" 2>/dev/null; then echo "$n: PATCH DOES NOT APPLY"; bad=$((bad+1)); continue; fi
   out=$(/verif/bin/check "$id" --tier "$tier" 2>&1); code=$?
   git checkout -- . ; git clean -fdq -e target
-  if [ $code -eq 1 ]; then ok=$((ok+1)); echo "$n: detected ($(echo "$out" | grep -m1 '^VIOLATION' | sed 's/.*replays\///'))";
+  if [ $code -eq 1 ]; then ok=$((ok+1)); echo "$(date +%H:%M:%S) $n: detected ($(echo "$out" | grep -m1 '^VIOLATION' | sed 's/.*replays\///'))";
   else bad=$((bad+1)); echo "$n: NOT DETECTED (exit $code) $(echo "$out" | grep -E '^(OK|MACHINERY)' | head -2 | cut -c1-200)"; fi
 done
 echo "seeds detected: $ok, missed or broken: $bad"
